@@ -1777,6 +1777,7 @@ func (e *Engine) boxFuncs(t types.Type) (string, string, int) {
 	s := e.sortOf(t)
 	e.declOnce("fun:"+box, fmt.Sprintf("(declare-fun %s (%s) Int)", box, s))
 	e.declOnce("fun:"+unbox, fmt.Sprintf("(declare-fun %s (Int) %s)", unbox, s))
+	e.noteBoxedType(t)
 	return box, unbox, e.typeID(t)
 }
 
@@ -1794,6 +1795,17 @@ func (e *Engine) makeInterface(st *State, x *ssa.MakeInterface) {
 	vt := e.valTerm(v)
 	b := e.named(st, "box", sx(box, vt), "Int")
 	st.define(and(eq(sx("typeof", b), fmt.Sprint(id)), eq(sx(unbox, b), vt), sx(">", b, "0")))
+	// an error built by a constructor stays one when boxed; a boxed struct
+	// value (a switch context ...) is not such an error
+	e.declOnce("fun:isErrSite", "(declare-fun isErrSite (Int) Bool)")
+	e.declOnce("fun:isPlainErr", "(declare-fun isPlainErr (Int) Bool)")
+	if _, isPtr := v.Ty.Underlying().(*types.Pointer); isPtr {
+		st.define(eq(sx("isErrSite", b), sx("isErrSite", vt)))
+		st.define(eq(sx("isPlainErr", b), sx("isPlainErr", vt)))
+	} else {
+		st.define(not(sx("isErrSite", b)))
+		st.define(not(sx("isPlainErr", b)))
+	}
 	e.set(st, x, &Val{T: b, Ty: x.Type(), Dyn: &Val{T: vt, Ty: v.Ty, Addr: v.Addr}})
 }
 
@@ -1801,6 +1813,7 @@ func (e *Engine) implementsPred(t types.Type) string {
 	e.typeFuncs()
 	p := quoteSym("implements$" + typeKey(t))
 	e.declOnce("fun:"+p, fmt.Sprintf("(declare-fun %s (Int) Bool)", p))
+	e.noteIfacePred(t)
 	return p
 }
 
